@@ -53,7 +53,7 @@ def lock_spec(prop, tier):
     T = dict(budget=900.0, job_budget=600.0)  # thorough budgets
     if prop == "C01":
         if q:
-            return (lr(merge(fam("p2x1", "conv2"), fam("opt2", "prep2", locks=OPT)), -1)
+            return (lr(merge(fam("p2x1", "conv2", "guards2"), fam("opt2", "prep2", locks=OPT)), -1)
                     + lr(fam("p2x2", "p3x1"), 2)
                     + lr(fam("rrw", locks=(0, 1)), 3))
         return (lr(merge(fam("p2x1", "conv2", "p2x2"), fam("opt2", "prep2", locks=OPT)), -1, **T)
@@ -81,7 +81,7 @@ def lock_spec(prop, tier):
                 + lr(merge(fam("guards3"), fam("prep3", locks=OPT)), 3, **T))
     if prop == "C08":
         if q:
-            return (lr(merge(fam("p2x1", "conv2"), fam("opt2", "prep2", "republish", locks=OPT)), -1)
+            return (lr(merge(fam("p2x1", "conv2", "guards2"), fam("opt2", "prep2", "republish", locks=OPT)), -1)
                     + lr(fam("p2x2", "p3x1"), 2))
         return (lr(merge(fam("p2x1", "conv2", "p2x2", "guards2"), fam("opt2", "prep2", "republish", locks=OPT)), -1, **T)
                 + lr(merge(fam("p3x1", "conv3", "p2x3"), fam("opt3", "prep3", locks=OPT), fam("warm2", locks=MCS)), 3, **T)
